@@ -4224,7 +4224,17 @@ struct CallInfo {
     packed_arg_count: u8,
 }
 
+thread_local! {
+    // The deadline of the outermost execution that's currently running on this thread.
+    //
+    // Nested executions (e.g. of functions that are called by core library functions) share the
+    // deadline of the outermost execution rather than starting with a fresh time limit.
+    static EXECUTION_DEADLINE: std::cell::Cell<Option<Instant>> = const { std::cell::Cell::new(None) };
+}
+
 struct ExecutionTimeout {
+    // True if the timeout belongs to the outermost execution on this thread
+    is_outermost: bool,
     // The instant at which the deadline was last checked
     last_check: Instant,
     // The time at which a timeout will be reached
@@ -4257,12 +4267,30 @@ impl ExecutionTimeout {
             100_000_000.0
         } * interval_seconds;
 
+        let interval_instructions = first_interval_instruction_count as usize;
+
+        // Nested executions share the deadline of the outermost execution
+        let (deadline, is_outermost) = match EXECUTION_DEADLINE.get() {
+            Some(outer_deadline) => (outer_deadline.min(now + execution_limit), false),
+            None => {
+                EXECUTION_DEADLINE.set(Some(now + execution_limit));
+                (now + execution_limit, true)
+            }
+        };
+
         Self {
+            is_outermost,
             last_check: now,
-            deadline: now + execution_limit,
+            deadline,
             interval_seconds,
-            interval_instructions: first_interval_instruction_count as usize,
-            instructions_since_last_check: 0,
+            interval_instructions,
+            // If the deadline has already been reached (by the outer execution),
+            // then the first check should look at the clock right away.
+            instructions_since_last_check: if now >= deadline {
+                interval_instructions
+            } else {
+                0
+            },
             execution_limit,
         }
     }
@@ -4304,6 +4332,14 @@ impl ExecutionTimeout {
 
                 false
             }
+        }
+    }
+}
+
+impl Drop for ExecutionTimeout {
+    fn drop(&mut self) {
+        if self.is_outermost {
+            EXECUTION_DEADLINE.set(None);
         }
     }
 }
